@@ -33,3 +33,9 @@ chk("C12", "other",
     "Frames <= 2x3, <= 4 frames; concrete distinct omega values in the protocol harness (symbolic omega in the units); threshold >= 0; real-arithmetic model; the Python driver's file writing and spline correction are mirrored/not covered.",
     "symbolic execution of LLVM IR (llsym) with proved specifications substituted at unit boundaries + z3 per-path matching queries; models replayed through ctypes on the rebuilt kernels", "DESIGN.md 3/C12", "llsym")
 del NA["C12"]
+
+chk("C13", "other",
+    "Bounded symbolic execution of the real kernels plus bounded interleaving exploration: neighbormax and the sequential labelling on symbolic 3x3..4x3 (thorough 4x4, 3x5) images with arbitrary previous buffer contents (every ordering pattern = one solver-checked path set, steepest-ascent oracle); sparse kernel with symbolic sorted coordinates against a solver-quantified ascent relation; OpenMP row loops by alias queries (unbounded); the hand-rolled parallel walk executed from the real -fopenmp outlined IR by two abstract threads over every schedule within 2 (thorough 3) context switches, with symbolic stale labels, for team < omp_get_max_threads too.",
+    "Sequential consistency (a flush is a no-op in the model); 2 threads; <=3 context switches; small images; 'no equal-valued neighbours' read as distinct pixels within every 3x3 window; real-build confirmation of a model race is a stress run (not a forced schedule).",
+    "symbolic execution of LLVM IR (llsym) + greenlet-based bounded schedule exploration of the OpenMP outlined region + z3; confirmation on the rebuilt OpenMP kernel", "DESIGN.md 3/C13, 2.9", "llsym")
+del NA["C13"]
